@@ -164,6 +164,11 @@ EXPORT void fft64_vmp_apply_dft_to_dft_ref(const MODULE* module,                
   } else {
     for (uint64_t col_i = 0; col_i < col_max; col_i++) {
       double* pmat_col = mat_input + col_i * nrows * nn;
+      if (row_max == 0) {
+        // no usable row: the product is zero (there is no first row to multiply)
+        memset(vec_output + col_i * nn, 0, nn * sizeof(double));
+        continue;
+      }
       for (uint64_t row_i = 0; row_i < 1; row_i++) {
         reim_fftvec_mul(module->mod.fft64.mul_fft, vec_output + col_i * nn, vec_input + row_i * nn,
                         pmat_col + row_i * nn);
